@@ -14,6 +14,21 @@ use crate::{Error, Reason, Span, WithErrorInfo};
 
 impl Resolver<'_> {
     pub fn fold_function(&mut self, closure: Box<Func>, span: Option<Span>) -> Result<Expr> {
+        self.fold_function_inner(closure, span).map_err(|e| {
+            // An error raised while evaluating the body of a std function carries a
+            // span of std.prql (source id 0), which is not a file the user can see.
+            // Report the call in the user's source instead.
+            let in_std = e.span.is_some_and(|s| s.source_id == 0);
+            let call_in_user_source = span.is_some_and(|s| s.source_id != 0);
+            if in_std && call_in_user_source {
+                e.with_span(span)
+            } else {
+                e
+            }
+        })
+    }
+
+    fn fold_function_inner(&mut self, closure: Box<Func>, span: Option<Span>) -> Result<Expr> {
         let closure = self.fold_function_types(closure)?;
 
         log::debug!(
